@@ -23,6 +23,9 @@ def run(chk: Check, drv: Driver):
     )
     quick = chk.tier == "quick"
     rng = chk.rng
+    from .. import graphcorr
+
+    graphcorr.lattice_order_check(chk, 150 if quick else 2000, drv)
     caps = [1, 2, 3, None]
     total = 0
     for cap in caps:
